@@ -243,3 +243,127 @@ def id_size(cfg):
 def result_list(L, cfgobj, content):
     r = L.SSEResult.deserialize(content, cfgobj).get_result_list()
     return r
+
+
+# ------------------------------------------------------------------------------- real client, driven like commands.py
+
+class ClientHost:
+    """a simulated client process running the repo's real client `Service`, one operation at a time,
+    the way frontend/client/commands.py drives it"""
+
+    def __init__(self, run, name="client"):
+        self.run = run
+        self.proc = run.sim.new_proc(name)
+        self.obj = None  # a client Service object kept across operations (C09), else None
+
+    def restart(self, name):
+        self.proc = self.run.sim.new_proc(name)
+        self.obj = None
+
+    async def call(self, fn, *a, **kw):
+        """run fn (sync or async) inside the client process -> ('ok', v) | ('exc', e) | ('died', None)"""
+        async def runner():
+            r = fn(*a, **kw)
+            if asyncio.iscoroutine(r):
+                r = await r
+            return r
+        return await self.run.sim.run_in(self.proc, runner)
+
+    # --- the operations; `keep` keeps the Service object for the next operation instead of closing it
+    def _svc(self, sid, fresh=True):
+        import frontend.client.services.service as csvc
+        if not fresh and self.obj is not None and self.obj.sid == sid:
+            return self.obj
+        return csvc.Service(sid)
+
+    async def create(self, cfg):
+        import frontend.client.services.service as csvc
+
+        def op():
+            s = csvc.Service()
+            sid = s.handle_create_config(cfg)
+            self.obj = s
+            return sid
+        return await self.call(op)
+
+    async def create_on(self, sid, cfg):
+        def op():
+            s = self._svc(sid)
+            return s.handle_create_config(cfg)
+        return await self.call(op)
+
+    async def gen_key(self, sid, fresh=True):
+        def op():
+            s = self._svc(sid, fresh)
+            s.handle_create_key()
+            self.obj = s
+        return await self.call(op)
+
+    async def encrypt(self, sid, db, fresh=True):
+        def op():
+            s = self._svc(sid, fresh)
+            s.handle_encrypt_database(db)
+            self.obj = s
+        return await self.call(op)
+
+    async def _net_op(self, sid, which, arg, fresh, keep):
+        async def op():
+            s = self._svc(sid, fresh)
+            box = []
+
+            def cb(fut):
+                if not fut.cancelled() and fut.exception() is None:
+                    box.append(fut.result())
+            try:
+                if which == "upload_config":
+                    await s.handle_upload_config(wait=True, wait_callback_func=cb)
+                elif which == "upload_index":
+                    await s.handle_upload_encrypted_database(wait=True, wait_callback_func=cb)
+                else:
+                    await s.handle_keyword_search(arg, wait=True, wait_callback_func=cb)
+                self.obj = s if keep else None
+            finally:
+                if not keep:
+                    self.obj = None
+                    await s.close_service()
+            return box, s
+        return await self.call(op)
+
+    async def upload_config(self, sid, fresh=True, keep=False):
+        return await self._net_op(sid, "upload_config", None, fresh, keep)
+
+    async def upload_index(self, sid, fresh=True, keep=False):
+        return await self._net_op(sid, "upload_index", None, fresh, keep)
+
+    async def search(self, sid, kw, fresh=True, keep=False):
+        return await self._net_op(sid, "search", kw, fresh, keep)
+
+    async def drop(self):
+        """discard the kept client object the way a finished command would (close_service)"""
+        s, self.obj = self.obj, None
+        if s is not None:
+            return await self.call(s.close_service)
+        return ("ok", None)
+
+
+def client_snapshot():
+    """content of ~/.sse/client as {relative path: bytes | decoded service_meta | None for directories}"""
+    root = os.path.join(world.sse_dir(), "client")
+    out = {}
+    for d, dirs, files in os.walk(root):
+        dirs.sort()
+        for f in sorted(files):
+            p = os.path.join(d, f)
+            with open(p, "rb") as fh:
+                b = fh.read()
+            rel = os.path.relpath(p, root)
+            if f == "service_meta":
+                try:
+                    out[rel] = ("meta", pickle.loads(b))
+                except Exception:
+                    out[rel] = ("meta-raw", b)
+            else:
+                out[rel] = b
+        for dd in dirs:
+            out[os.path.relpath(os.path.join(d, dd), root) + "/"] = None
+    return out
